@@ -300,4 +300,42 @@ theorem seriesUnionSegs_render (c : PCtx) (labels : List Bytes) (scripts : List 
     exact render_unionB "pre_distinct" hpre (renderSegs_withB "pre_label_filter" _ (render_segsSelBody _)) hops
       (render_filterBody [] labels hu)
 
+/-! ### the `utf8` hypotheses are decidable; non-vacuity -/
+instance : DecidablePred Utf8OK := fun x => by unfold Utf8OK; exact inferInstance
+def PCond.decOkU : (g : PCond) → Decidable g.okU
+  | .cmp _ _ _ => by unfold PCond.okU; exact inferInstance
+  | .cmpMatch _ _ _ => by unfold PCond.okU; exact inferInstance
+  | .arrayExists _ => by unfold PCond.okU; exact inferInstance
+  | .and2 x y => by
+    unfold PCond.okU
+    exact @instDecidableAnd _ _ (PCond.decOkU x) (PCond.decOkU y)
+instance : DecidablePred PCond.okU := PCond.decOkU
+instance : DecidablePred PQueryU := fun q => by unfold PQueryU; exact inferInstance
+
+/-- `__sample_type__="'\--"` (inside the `arrayExists` closure), `'--="\'"`, `a=~"')--"`: a request the fingerprint planner
+    accepts, hostile bytes everywhere, and all `utf8` hypotheses hold -/
+private def exSelsU : List Selector :=
+  [⟨[95, 95, 115, 97, 109, 112, 108, 101, 95, 116, 121, 112, 101, 95, 95], .eq, [39, 92, 45, 45]⟩,
+   ⟨[39, 45, 45], .eq, [92, 39]⟩, ⟨[97], .re, [39, 41, 45, 45]⟩]
+private def exQ : PQuery := (plan (fun _ _ => false) "profiles_series_gin" [50] [51] exSelsU).get (by decide +kernel)
+private theorem exQ_U : PQueryU exQ := by decide +kernel
+private def exCtxU : PCtx :=
+  { fromNs := 1700000000000000000, toNs := 1700000360000000000, limit := 10, ginTable := "profiles_series_gin",
+    ginDistTable := "`qryn`.profiles_series_gin_dist", seriesTable := "profiles_series", seriesDistTable := "profiles_series_dist",
+    profilesDistTable := "profiles_dist" }
+example : renderSegs (mergeTracesSegs exCtxU [39, 92, 45, 45] exQ exQ.globals) =
+    renderSel (mergeTraces exCtxU [39, 92, 45, 45] exQ exQ.globals) :=
+  mergeTracesSegs_render _ _ _ _ exQ_U exQ_U.1 (by decide +kernel)
+example : renderSegs (selectSeriesSegs exCtxU [39, 58, 45, 45] true (-15) [[39], [92, 39], [45, 45]] exQ exQ.globals) =
+    renderSel (selectSeries exCtxU [39, 58, 45, 45] true (-15) (getLabels exCtxU [[39], [92, 39], [45, 45]] exQ exQ.globals) exQ.globals) :=
+  selectSeriesSegs_render _ _ _ _ _ _ _ exQ_U exQ_U.1
+    (by simp only [renderExpr, renderExprs, List.map]; decide +kernel) (by simp only [renderExpr, renderParens, eq]; decide +kernel)
+example : renderSegs (seriesUnionSegs exCtxU [[39, 41, 45, 45], []] [exQ, exQ, exQ]) =
+    (seriesUnion exCtxU [[39, 41, 45, 45], []] [exQ, exQ, exQ]).render :=
+  seriesUnionSegs_render _ _ _ (by intro q hq; simp at hq; subst hq; exact exQ_U)
+    (by simp only [renderExpr, renderExprs, List.map]; decide +kernel)
+/-- the hypotheses do exclude something: a byte string that is not UTF-8 is not the text of a `String` (the C13 model writes
+    `""` there; the segment view and the real planner keep the bytes — `prof-segs` compares those byte for byte) -/
+example : ¬ Utf8OK (quote [255]) := by decide +kernel
+
 end Qryn.Prof
